@@ -93,6 +93,9 @@ pub struct Project {
     /// Split manifest: steps from this index on live in the named file, which
     /// the main manifest includes at its end.
     pub fragment: Option<(String, usize)>,
+    /// Extra text at the top of the fragment file (or, without a fragment,
+    /// after the preamble of the only file).
+    pub fragment_preamble: String,
 }
 
 fn esc(path: &str) -> String {
@@ -115,7 +118,11 @@ fn esc_val(v: &str) -> String {
 impl Project {
     /// The whole project as one manifest (ignores `fragment`).
     pub fn manifest_text(&self) -> String {
-        self.render(0, self.steps.len(), true, true, true)
+        let mut t = self.render(0, self.steps.len(), true, true, true);
+        if !self.fragment_preamble.is_empty() {
+            t.push_str(&self.fragment_preamble);
+        }
+        t
     }
 
     /// Text of one file of a (possibly split) manifest.  The fragment holds
@@ -123,7 +130,7 @@ impl Project {
     /// preamble, the steps before the split point and the include.
     pub fn text_of_file(&self, file: &str) -> String {
         match &self.fragment {
-            Some((name, first)) if name == file => self.render(*first, self.steps.len(), true, true, false),
+            Some((name, first)) if name == file => format!("{}{}", self.fragment_preamble, self.render(*first, self.steps.len(), true, true, false)),
             Some((name, first)) => {
                 let mut t = self.render(0, *first, false, false, true);
                 t.push_str(&format!("include {}\n", name));
